@@ -79,6 +79,7 @@ pub struct Sched {
     target_taps: Cell<usize>,
     tap_log: RefCell<Option<Vec<(i32, &'static str)>>>,
     state: RefCell<Option<Rc<RefCell<SystemState>>>>,
+    execed: RefCell<BTreeSet<i32>>,
 }
 impl std::fmt::Debug for Sched {
     fn fmt(&self, f: &mut std::fmt::Formatter<'_>) -> std::fmt::Result {
@@ -135,10 +136,45 @@ impl Sched {
             self.tasks.borrow_mut()[id] = Some(task);
         }
     }
+    /// Records (once per process) the program a process has exec'ed, as a trace entry.
+    fn note_exec(&self, pid: Pid) {
+        if self.execed.borrow().contains(&pid.0) {
+            return;
+        }
+        let Some(state) = self.state.borrow().clone() else {
+            return;
+        };
+        let st = state.borrow();
+        let Some(p) = st.processes.get(&pid) else {
+            return;
+        };
+        if let Some((_path, args, envs)) = p.last_exec() {
+            self.execed.borrow_mut().insert(pid.0);
+            let args: Vec<String> = args.iter().map(|a| a.to_string_lossy().into_owned()).collect();
+            let mut envs: Vec<String> = envs.iter().map(|a| a.to_string_lossy().into_owned()).collect();
+            envs.sort();
+            let wanted: Vec<String> = if args.first().map(|s| s.as_str()) == Some("envp") {
+                args[1..].to_vec()
+            } else {
+                envs.iter()
+                    .filter_map(|e| e.split_once('=').map(|(n, _)| n.to_string()))
+                    .filter(|n| n.len() == 1)
+                    .collect()
+            };
+            let shown: Vec<String> = envs
+                .iter()
+                .filter(|e| e.split_once('=').is_some_and(|(n, _)| wanted.iter().any(|w| w == n)))
+                .cloned()
+                .collect();
+            drop(st);
+            trace(pid, format!("exec[{}]", shown.join(",")));
+        }
+    }
     fn tap(&self, pid: Pid, name: &'static str) {
         if self.suppress.get() > 0 {
             return;
         }
+        self.note_exec(pid);
         self.taps.set(self.taps.get() + 1);
         if let Some(log) = self.tap_log.borrow_mut().as_mut() {
             log.push((pid.0, name));
@@ -816,7 +852,7 @@ pub struct Run {
     pub panic: Option<String>,
 }
 
-pub const STUBS: &[&str] = &["true", "false", "pwd", "ext", "ext2"];
+pub const STUBS: &[&str] = &["true", "false", "pwd", "ext", "ext2", "envp"];
 
 fn mkfile(content: Vec<u8>, mode: u32, native: bool) -> Rc<RefCell<Inode>> {
     let mut inode = Inode::new([]);
